@@ -274,7 +274,12 @@ func (g *G) Msg(o MsgOpts) MsgSpec {
 		}
 		ins(g.mkHdr(clName(), g.padNum(g.R.Intn(len(m.Body))), &o))
 	case CLLarger:
-		ins(g.mkHdr(clName(), g.padNum(len(m.Body)+g.R.Range(1, 50)), &o))
+		n := len(m.Body) + g.R.Range(1, 50)
+		if g.R.Chance(1, 4) {
+			// legal declared lengths far beyond what a 16-bit offset can address
+			n = g.R.PickInt(65535, 65536, 65536+len(m.Body), 65537+g.R.Intn(40), 131072+g.R.Intn(40), 1<<20, 1<<24-1, 1<<24)
+		}
+		ins(g.mkHdr(clName(), g.padNum(n), &o))
 	case CLHuge:
 		v := g.R.Pick([]string{"16777217", "99999999", "999999999", "1000000000", "4294967296", "4294967297", "18446744073709551617", "0000000000", "0000000012"})
 		if g.R.Chance(1, 3) {
